@@ -190,7 +190,7 @@ let run_trace infile outfile =
                 | "K" | "SR" -> [EvTick]   (* compaction / snapshot-status report: no modelled state changes *)
                 | "R" -> [EvRestart]
                 | "D" | "DD" -> [EvRecv (msg_of_tokens g.g_args)]
-                | "FP" -> (match g.g_args with _ :: _ :: _ :: p :: _ -> [EvPropose (nat_of_int (int_of_string p))] | _ -> failwith "bad FP")
+                | "FP" | "FPD" -> (match g.g_args with _ :: _ :: _ :: p :: _ -> [EvPropose (nat_of_int (int_of_string p))] | _ -> failwith "bad FP")
                 | k -> failwith ("unknown event kind " ^ k)
               with Unmodelled c -> fail := Some (Printf.sprintf "event=%d reason=unmodelled-message %s" !idx c); raise Exit) in
            let rec try_all_ok evs = match evs with
@@ -252,8 +252,104 @@ let run_trace infile outfile =
       | _ -> failwith ("bad trace line: " ^ l)) lines;
   close_out oc
 
+(* ---------------------------------------------------------------- monitor mode
+   raftrun monitor <traces.txt> <out>
+   Evaluates the safety predicates directly on the OBSERVED states of the implementation (no
+   model stepping): used when trace validation has found a deviation, to look for an actual
+   violation of the property.  Per schedule: "S <k> SAFE events=.." or
+   "S <k> UNSAFE event=<i> reason=<...> | details". *)
+
+let nstate_of_proj (p : nproj) : nstate =
+  { n_term = p.p_term; n_vote = p.p_vote; n_log = p.p_log; n_commit = p.p_commit; n_role = p.p_role;
+    n_lead = p.p_lead; n_votes = (fun _ -> None); n_match = (fun _ -> O) }
+
+let rec take k l = if k <= 0 then [] else match l with [] -> [] | x :: t -> x :: take (k - 1) t
+
+let run_monitor infile outfile =
+  let oc = open_out_bin outfile in
+  let lines = read_lines infile in
+  let cur_k = ref "" and cur_n = ref 0 in
+  let groups : group list ref = ref [] in
+  let cur : group option ref = ref None in
+  let flush_group () = (match !cur with Some g -> groups := { g with g_out = List.rev g.g_out } :: !groups | None -> ()); cur := None in
+  let finish () =
+    flush_group ();
+    let gs = List.rev !groups in
+    groups := [];
+    let n = !cur_n in
+    let ids = List.init n (fun i -> nat_of_int (i + 1)) in
+    let arr = Array.make (n + 1) init_node in
+    let mk () = { x_nodes = (fun y -> let i = int_of_nat y in if i <= n then arr.(i) else init_node); x_msgs = [] } in
+    let leaders : (int, int) Hashtbl.t = Hashtbl.create 16 in
+    let committed : (nat * nat) list ref = ref [] in
+    let fail = ref None in
+    let idx = ref 0 in
+    (try
+       List.iter (fun g ->
+           incr idx;
+           (match g.g_panic with
+            | Some p -> fail := Some (Printf.sprintf "event=%d reason=implementation-panic | %s %d %s | %s" !idx g.g_kind g.g_id (String.concat " " g.g_args) p); raise Exit
+            | None -> ());
+           let obs = match g.g_st with Some t -> snd (proj_of_tokens t) | None -> failwith "missing ST" in
+           let idn = nat_of_int g.g_id in
+           let old_n = arr.(g.g_id) in
+           let new_n = nstate_of_proj obs in
+           if not (step_okb old_n new_n) then begin
+             (* which conjunct of step_okb failed (label only) *)
+             let ti n = int_of_nat n.n_term and ci n = int_of_nat n.n_commit in
+             let why =
+               if ti new_n < ti old_n then "term-regressed"
+               else if ci new_n < ci old_n then "commit-regressed"
+               else if ti new_n = ti old_n && old_n.n_vote <> None && new_n.n_vote <> old_n.n_vote then "vote-changed-within-a-term"
+               else if take (ci old_n) new_n.n_log <> take (ci old_n) old_n.n_log then "committed-entry-removed-or-rewritten"
+               else "leader-committed-an-entry-of-an-older-term" in
+             fail := Some (Printf.sprintf "event=%d reason=%s | node %d before %s | after %s" !idx why g.g_id (proj_str (proj_of old_n)) (proj_str obs)); raise Exit
+           end;
+           arr.(g.g_id) <- new_n;
+           let x = mk () in
+           let long = List.length obs.p_log > 64 in
+           let do_match = not long || !idx mod 64 = 0 in
+           List.iter (fun b ->
+               let bad what = fail := Some (Printf.sprintf "event=%d reason=%s nodes %d %d | %s | %s" !idx what g.g_id (int_of_nat b)
+                                                (proj_str obs) (proj_str (proj_of (x.x_nodes b)))); raise Exit in
+               if not (election_okb x idn b) then bad "two-leaders-in-one-term";
+               if do_match && not (matching_okb x idn b && matching_okb x b idn) then bad "log-matching";
+               if not (sms_okb x idn b) then bad "different-entries-at-a-committed-index";
+               if not (lc_okb x idn b && lc_okb x b idn) then bad "leader-lacks-committed-entry") ids;
+           (* one leader per term over the whole run *)
+           if obs.p_role = Leader then begin
+             let t = int_of_nat obs.p_term in
+             (match Hashtbl.find_opt leaders t with
+              | Some l when l <> g.g_id -> fail := Some (Printf.sprintf "event=%d reason=two-leaders-in-one-term-over-time term %d nodes %d %d" !idx t l g.g_id); raise Exit
+              | _ -> Hashtbl.replace leaders t g.g_id)
+           end;
+           (* whatever was committed once stays committed, everywhere, forever *)
+           let c = int_of_nat obs.p_commit in
+           let mine = take c obs.p_log in
+           let k = min c (List.length !committed) in
+           if take k mine <> take k !committed then
+             (fail := Some (Printf.sprintf "event=%d reason=committed-entry-changed | node %d %s" !idx g.g_id (proj_str obs)); raise Exit);
+           if c > List.length !committed then committed := mine) gs
+     with Exit -> ());
+    (match !fail with
+     | Some f -> Printf.fprintf oc "S %s UNSAFE %s\n" !cur_k f
+     | None -> Printf.fprintf oc "S %s SAFE events=%d\n" !cur_k !idx) in
+  List.iter (fun l ->
+      match split_ws l with
+      | ["SCHEDULE"; k] -> cur_k := k; groups := []; cur := None
+      | "N" :: n :: _ -> cur_n := int_of_string n
+      | "EV" :: kind :: id :: args -> flush_group (); cur := Some { g_kind = kind; g_id = int_of_string id; g_args = args; g_out = []; g_st = None; g_panic = None }
+      | "OUT" :: _ -> ()
+      | "ST" :: toks -> (match !cur with Some g -> cur := Some { g with g_st = Some toks } | None -> ())
+      | "PANIC" :: toks -> (match !cur with Some g -> cur := Some { g with g_panic = Some (String.concat " " toks) } | None -> ())
+      | ["END"; _] -> finish ()
+      | [] -> ()
+      | _ -> failwith ("bad trace line: " ^ l)) lines;
+  close_out oc
+
 let () =
   match Array.to_list Sys.argv with
   | [_; "quorum"; i; o] -> run_quorum i o
   | [_; "trace"; i; o] -> run_trace i o
-  | _ -> prerr_endline "usage: raftrun quorum|trace <in> <out>"; exit 3
+  | [_; "monitor"; i; o] -> run_monitor i o
+  | _ -> prerr_endline "usage: raftrun quorum|trace|monitor <in> <out>"; exit 3
